@@ -50,8 +50,8 @@ def write_replay(plan, verdict, prop):
             "signature": {"class": verdict["class"], "site": verdict["site"], "op": verdict["op"],
                           "lhs_digest": verdict["lhs_digest"], "rhs_digest": verdict["rhs_digest"]},
             "diff": verdict["diff"], "detail": verdict["detail"], "tree": tree_id(ZP.repo if ZP else repo_path())}
-    text = json.dumps(body, indent=1, sort_keys=True)
-    name = "%s-%s-%s-%s.json" % (prop, verdict["class"], plan["run_seed"], canon.digest(json.dumps(body["ops"], sort_keys=True))[:8])
+    text = json.dumps(body, indent=1)  # never sort keys: the order of style-dict keys is part of the history
+    name = "%s-%s-%s-%s.json" % (prop, verdict["class"], plan["run_seed"], canon.digest(json.dumps(body["ops"]))[:8])
     path = os.path.join(REPLAY_DIR, name)
     with open(path, "w") as f:
         f.write(text)
@@ -109,6 +109,78 @@ def run_batch(args):
                 out["violations"].append(rec)
             except HarnessError as e:
                 out["errors"].append({"run_seed": run_seed, "error": "while minimising: " + str(e)[:1500]})
+    out["stats"] = ev.stats.c
+    out["distinct"] = sorted(ev.distinct)
+    return out
+
+
+def choose_ordinals(sites, total, mode, cap, rng):
+    """sites: [[site, first, last, hits], ...].  mode 'sites': the first and the last dynamic occurrence
+    of every distinct source line; mode 'all': every line event."""
+    if mode == "all":
+        ords = list(range(1, total + 1))
+    else:
+        s = set()
+        for _site, first, last, _hits in sites:
+            s.add(first)
+            s.add(last)
+        ords = sorted(s)
+    if cap and len(ords) > cap:
+        ords = sorted(rng.sample(ords, cap))
+    return ords
+
+
+def run_sweep(args):
+    """One crash-site sweep: the same short history, its target op cut at many line events."""
+    import faulthandler
+    import random
+    faulthandler.dump_traceback_later(2400, exit=True)
+    prop, tier = args["prop"], args["tier"]
+    ev = Evaluator(ZP, memo={}, stats=Stats())
+    ev.distinct = {}
+    out = {"runs": [], "violations": [], "errors": [], "samples": [], "schedules": [], "sweep": None}
+    run_seed = args["run_seed"]
+    try:
+        base = gen.gen_sweep_base(run_seed, prop, tier, target_cls=args.get("target_cls"))
+        t = base["sweep"]["target"]
+        dry = ZP.submit(base["hash_seeds"]["history"], {"kind": "history", "ops": base["ops"], "faults_off": True,
+                                                       "count_lines": True, "record_sites": True})["records"]
+        total = dry[t].get("lines") or 0
+        sites = dry[t].get("sites") or []
+        rng = random.Random(run_seed ^ 0x5EED)
+        ords = choose_ordinals(sites, total, args.get("mode", "sites"), args.get("cap", 0), rng)
+        out["sweep"] = {"run_seed": run_seed, "target": {k: v for k, v in base["ops"][t].items() if k not in ("doc", "recipe")},
+                        "line_events": total, "distinct_sites": len(sites), "points": len(ords), "mode": args.get("mode", "sites"),
+                        "dry_status": dry[t]["status"]}
+        fired_sites = {}
+        for n in ords:
+            plan = copy.deepcopy(base)
+            plan["ops"][t]["fault"] = {"kind": "F2", "ordinal": n, "of": total}
+            plan["sweep"]["ordinal"] = n
+            t0 = time.time()
+            v, info = ev.evaluate(plan)
+            out["runs"].append({"run_seed": run_seed, "sweep_ordinal": n, "ops": len(plan["ops"]), "judged": info["judged"],
+                                "precondition_failed": info["precondition_failed"], "verdict": v["class"] if v else None,
+                                "hist_digest": info.get("hist_digest"),
+                                "ref_digest": canon.digest("".join(info.get("ref_digests", []))), "fired_at": [n]})
+            if v is not None:
+                mplan, mv = Minimiser(ev, plan, v, budget_s=args.get("minimise_s", 45)).run()
+                path = write_replay(mplan, mv, mv["property"])
+                ok, log = confirm_replay(path)
+                rec = {"run_seed": run_seed, "verdict": mv, "replay": path, "confirmed": ok, "ops": len(mplan["ops"]),
+                       "orig_ops": len(plan["ops"]), "compact": compact_plan(mplan, 2000)}
+                if not ok:
+                    rec["replay_log"] = log
+                out["violations"].append(rec)
+                break   # one violation per sweep is enough; the rest of the sweep would repeat it
+        if not out["samples"]:
+            p = copy.deepcopy(base)
+            p["ops"][t]["fault"] = {"kind": "F2", "ordinal": "<each of %d points>" % len(ords)}
+            out["samples"].append(compact_plan(p))
+    except HarnessError as e:
+        out["errors"].append({"run_seed": run_seed, "error": str(e)[:1500]})
+    except Exception:
+        out["errors"].append({"run_seed": run_seed, "error": "harness exception: " + traceback.format_exc()[-1500:]})
     out["stats"] = ev.stats.c
     out["distinct"] = sorted(ev.distinct)
     return out
